@@ -87,6 +87,12 @@ func cmdC12(r *RNG, n int, e *Emitter, args []string) {
 			default: // some execute
 				ct := clip.ClipType(1 + r.Intn(4))
 				fr := clip.FillRule(r.Intn(4))
+				if r.Intn(6) == 0 { // values outside the enumerations (treated as even-odd / no clipping), also after valid ones
+					fr = clip.FillRule(4 + r.Intn(3))
+				}
+				if r.Intn(12) == 0 {
+					ct = []clip.ClipType{clip.NoClip, clip.ClipType(5), clip.ClipType(7)}[r.Intn(3)]
+				}
 				kind := []string{"exec", "execOC", "tree", "exec", "execOC"}[r.Intn(5)]
 				prefill := r.Bool() && kind != "tree"
 				hist = append(hist, histOp{Kind: kind, Ct: int(ct), Fr: int(fr), Prefill: prefill})
